@@ -123,6 +123,10 @@ def to_proto(desc, tfun=t2f, qfun=q2f):
         ns.quantization_info.steps_per_quarter = desc['spq']
     if desc.get('sps', 0):
         ns.quantization_info.steps_per_second = desc['sps']
+    if desc.get('qinfo_empty') and not desc.get('spq', 0) and not desc.get('sps', 0):
+        # an UNQUANTIZED sequence whose (empty) quantization_info sub-message is present: legal, and what results
+        # from parsing text/JSON with an empty message or from resetting the step counts of a quantized copy
+        ns.quantization_info.SetInParent()
     sub = desc.get('sub', [0, 0])
     if sub[0] or sub[1]:
         ns.subsequence_info.start_time_offset = tfun(sub[0])
@@ -235,6 +239,8 @@ def gen_desc(rng, max_notes=12, max_instr=3, hi_quarters=40, p_drum=0.2, with_ev
     d['sub'] = [0, 0]
     d['tpq'] = rng.choice([220, 480, 96])
     d['meta'] = rng.randint(1, 10 ** 6) if meta else None
+    if rng.random() < 0.08:
+        d['qinfo_empty'] = True
     return d
 
 
@@ -248,4 +254,7 @@ def shrink_desc(d):
             yield c
     if d.get('meta'):
         c = dict(d); c['meta'] = None
+        yield c
+    if d.get('qinfo_empty'):
+        c = dict(d); c['qinfo_empty'] = False
         yield c
